@@ -105,6 +105,7 @@ func c18cli(c *ev.Ctx) {
 		{"ecdsa-malformed", ecMalformed, "bad"}, {"unknown-ssh-type", unknownTypeBlob, "bad"},
 		{"age-recipient-substituted", rcA[:20] + "q" + rcA[21:], "bad"}, {"space+recipient", " " + rcA, "bad"}, {"recipient+space", rcA + " ", "bad"}, {"identity-in-recipients-file", idA, "bad"},
 		{"recipient-upper", strings.ToUpper(rcA), "bad"}, {"garbage", "hello", "bad"}, {"overlong", "ssh-ed25519 " + strings.Repeat("A", 9000), "bad"},
+		{"ssh-space+ed25519", " " + edLine, "bad"}, {"ssh-tab+rsa", "\t" + rsaLine, "bad"}, {"ssh-spaces+ed25519", "  " + edLine, "bad"},
 	}
 	if rcA[20] == 'q' {
 		recAlpha[21].text = rcA[:20] + "p" + rcA[21:]
